@@ -11,6 +11,8 @@ mod textgen;
 
 mod mon_c01;
 mod mon_c02;
+mod mon_c03;
+mod normref;
 mod mon_c04;
 mod mon_c05;
 mod mon_c08;
@@ -113,6 +115,7 @@ fn main() {
         "C01" => mon_c01::run(&ctx, &mut rep),
         "C02" => mon_c02::run(&ctx, &mut rep),
         "C17" => mon_c17::run(&ctx, &mut rep),
+        "C03" => mon_c03::run(&ctx, &mut rep),
         "C05" => mon_c05::run(&ctx, &mut rep),
         "C04" => mon_c04::run(&ctx, &mut rep),
         "C08" => mon_c08::run(&ctx, &mut rep),
